@@ -15,8 +15,25 @@ struct ParamSpec {
     int gclass = 0;	// generating function of a vector parameter
     long gseed = 0;
     zc guess;		// unknown: initial guess (scalar)
+    bool corr = false;	// unknown made by vnacal_make_correlated_parameter (kept near another parameter with a given sigma)
+    int corr_other = -1;	// ... index of that other parameter in the engine's list (-1: predefined)
+    std::vector<double> sigma_range;	// ... first and last frequency of its sigma vector (empty: one sigma for all frequencies)
     bool known() const { return kind != 3; }
 };
+
+// permitted frequency range of a parameter used as a standard: that of the vector parameter at the end of its chain of initial
+// guesses (kf of an unknown holds it), cut down by the parameter's own sigma vector if it is a correlated one; false: unrestricted
+static inline bool param_frange(const ParamSpec &p, double &lo, double &hi)
+{
+    bool have = false;
+    if ((p.kind == 2 || p.kind == 3) && !p.kf.empty()) { lo = p.kf.front(); hi = p.kf.back(); have = true; }
+    if (p.kind == 3 && p.corr && p.sigma_range.size() == 2) {
+	lo = have ? std::max(lo, p.sigma_range[0]) : p.sigma_range[0];
+	hi = have ? std::min(hi, p.sigma_range[1]) : p.sigma_range[1];
+	have = true;
+    }
+    return have;
+}
 
 // generating functions for frequency dependent standards: low-order rational in x = f / 1e9
 static inline zc gen_gamma(long seed, int gclass, double f)
